@@ -116,6 +116,11 @@ var Builders = []string{
 	// String objects with non-ASCII text that the setup never reads by index: the first indexed read (and whatever
 	// the implementation builds for it) happens in the runtimes that share the object's internal value after Copy()
 	`var wideS = new String("żółć😀x%N"), wideO = Object("日本語%N"); wideS.tag = 1; var wideRead = function(){ return wideS[1] + wideS[6] + wideO[2] + wideS.hasOwnProperty("3") + ":" + Object.keys(wideO).length + ":" + wideS.charCodeAt(4) + ":" + JSON.stringify(Object.getOwnPropertyDescriptor(wideO, "0")) };`,
+	// two closures over one catch parameter / one named-function-expression scope: they must keep sharing it in a copy
+	`var catchW, catchR; try { throw %N } catch (cv) { catchW = function(v){ cv = v }; catchR = function(){ return cv } } var catchPair = function(){ catchW(catchR() + 10); return catchR() }; var nfePair = (function nf(){ return [function(){ return typeof nf }, function(){ return nf === nfePair.self }] })(); nfePair.self = null; var nfeRead = function(){ return nfePair[0]() + ":" + nfePair[1]() };`,
+	// a constructor already used with new before the copy, used again afterwards: instances made in the copy must
+	// inherit from the copy's prototype object, see later edits of it, and leave the original's alone
+	`function Pt(){ this.k = %N } Pt.prototype.m = function(){ return "m" + this.k }; var pt0 = new Pt(); var ptMake = function(){ var p = new Pt(); Pt.prototype.extra = (Pt.prototype.extra || 0) + 1; return (p instanceof Pt) + ":" + (Object.getPrototypeOf(p) === Pt.prototype) + ":" + (p.constructor === Pt) + ":" + p.m() + ":" + p.extra + ":" + pt0.extra + ":" + (Object.getPrototypeOf(pt0) === Object.getPrototypeOf(p)) };`,
 	// getters on prototypes, inherited setters
 	`function Temp(){ this._c = %N } Object.defineProperty(Temp.prototype, "f", { get: function(){ return this._c * 2 }, set: function(v){ this._c = v / 2 }, configurable: true }); var temp = new Temp(); temp.f = 100; var tempF = function(){ return temp.f + ":" + temp._c };`,
 	// immutable and special bindings: named function expression, catch parameter, arguments in closures
